@@ -63,6 +63,14 @@ type SpecFunc struct {
 
 type SParam struct{ Name, Type string }
 
+// GlobalInv is an invariant over package-level variables: proved of the
+// package initializer, assumed at the entry of every function of the package
+// (a syntactic scan shows that nothing else stores to the variables).
+type GlobalInv struct {
+	Pkg    string
+	Clause *Clause
+}
+
 // ---------------------------------------------------------------------------
 // expression AST
 
@@ -474,6 +482,25 @@ func (p *Prog) parseContractFile(file string) error {
 			}
 			p.specFuncs[sf.Name] = sf
 			i = j
+		case "global":
+			// global invariant label: expr   (about package-level variables)
+			txt := strings.TrimSpace(strings.TrimPrefix(l.s, "global"))
+			if !strings.HasPrefix(txt, "invariant") {
+				return fail(l.n, "expected 'global invariant'")
+			}
+			txt = strings.TrimSpace(strings.TrimPrefix(txt, "invariant"))
+			j := i + 1
+			for j < len(lines) && !isBlockStart(lines[j].s) {
+				txt += " " + lines[j].s
+				j++
+			}
+			label, body := splitLabel(txt)
+			e, err := parseExpr(body)
+			if err != nil {
+				return fail(l.n, "%v", err)
+			}
+			p.globalInvs = append(p.globalInvs, &GlobalInv{Pkg: pkgName, Clause: &Clause{Label: label, Text: body, Expr: e, Line: l.n, File: short}})
+			i = j
 		case "func", "extern":
 			ext := fields[0] == "extern"
 			name := strings.TrimSpace(strings.TrimPrefix(strings.TrimSpace(strings.TrimPrefix(l.s, fields[0])), "func"))
@@ -517,7 +544,7 @@ func (p *Prog) parseContractFile(file string) error {
 func isBlockStart(s string) bool {
 	f := strings.Fields(s)
 	switch f[0] {
-	case "func", "extern", "spec", "ghost", "count", "lemma":
+	case "func", "extern", "spec", "ghost", "count", "lemma", "global":
 		return true
 	}
 	return false
